@@ -8,13 +8,10 @@
 package main
 
 import (
-	"bufio"
 	"encoding/hex"
-	"encoding/json"
-	"fmt"
-	"os"
-	"runtime/debug"
 	"unicode/utf8"
+
+	"verifharness/common"
 
 	"github.com/gogpu/naga"
 	"github.com/gogpu/naga/glsl"
@@ -25,69 +22,16 @@ import (
 	"github.com/gogpu/naga/wgsl"
 )
 
-type job struct {
-	ID   any            `json:"id"`
-	Src  string         `json:"src"`
-	Hex  string         `json:"hex"` // source given as hex bytes (arbitrary, maybe invalid UTF-8)
-	Want []string       `json:"want"`
-	Opts map[string]any `json:"opts"`
-}
-
-func (j *job) source() string {
-	if j.Hex != "" {
-		b, _ := hex.DecodeString(j.Hex)
-		return string(b)
-	}
-	return j.Src
-}
+type job = common.Job
 
 func main() {
-	if len(os.Args) < 2 {
-		fmt.Fprintln(os.Stderr, "usage: nagadrive <mode>")
-		os.Exit(2)
-	}
-	mode := os.Args[1]
-	in := bufio.NewReaderSize(os.Stdin, 1<<20)
-	out := bufio.NewWriterSize(os.Stdout, 1<<20)
-	defer out.Flush()
-	dec := json.NewDecoder(in)
-	enc := json.NewEncoder(out)
-	for dec.More() {
-		var j job
-		if err := dec.Decode(&j); err != nil {
-			fmt.Fprintln(os.Stderr, "bad job:", err)
-			os.Exit(2)
-		}
-		res := runJob(mode, &j)
-		res["id"] = j.ID
-		if err := enc.Encode(res); err != nil {
-			fmt.Fprintln(os.Stderr, "encode:", err)
-			os.Exit(2)
-		}
-	}
+	common.Main(map[string]common.Mode{"tokens": doTokens, "compile": doCompile})
 }
 
-func runJob(mode string, j *job) (res map[string]any) {
-	res = map[string]any{}
-	defer func() {
-		if r := recover(); r != nil {
-			res["panic"] = fmt.Sprint(r)
-			res["stack"] = string(debug.Stack())
-		}
-	}()
-	switch mode {
-	case "tokens":
-		doTokens(j, res)
-	case "compile":
-		doCompile(j, res)
-	default:
-		res["error"] = "unknown mode " + mode
-	}
-	return res
-}
+var Dump = common.Dump
 
 func doTokens(j *job, res map[string]any) {
-	src := j.source()
+	src := j.Source()
 	// decoded runes with byte widths (Go's utf8 decoder: invalid byte = U+FFFD width 1)
 	var runes [][2]int
 	for i := 0; i < len(src); {
@@ -112,46 +56,19 @@ func doTokens(j *job, res map[string]any) {
 	res["toks"] = tl
 }
 
-func optBool(o map[string]any, k string, def bool) bool {
-	if v, ok := o[k]; ok {
-		if b, ok := v.(bool); ok {
-			return b
-		}
-	}
-	return def
-}
-
-func optInt(o map[string]any, k string, def int) int {
-	if v, ok := o[k]; ok {
-		if f, ok := v.(float64); ok {
-			return int(f)
-		}
-	}
-	return def
-}
-
-func wants(j *job, k string) bool {
-	for _, w := range j.Want {
-		if w == k {
-			return true
-		}
-	}
-	return false
-}
-
 func errPos(err error) any {
 	return err.Error()
 }
 
 func doCompile(j *job, res map[string]any) {
-	src := j.source()
+	src := j.Source()
 	ast, err := naga.Parse(src)
 	if err != nil {
 		res["stage"] = "parse"
 		res["err"] = errPos(err)
 		return
 	}
-	if wants(j, "ast") {
+	if j.Wants("ast") {
 		res["ast"] = Dump(ast.VerifInner())
 	}
 	mod, err := naga.LowerWithSource(ast, src)
@@ -160,10 +77,10 @@ func doCompile(j *job, res map[string]any) {
 		res["err"] = errPos(err)
 		return
 	}
-	if wants(j, "ir") {
+	if j.Wants("ir") {
 		res["ir"] = Dump(mod)
 	}
-	if wants(j, "validate") {
+	if j.Wants("validate") {
 		verrs, err := naga.Validate(mod)
 		if err != nil {
 			res["validate_err"] = err.Error()
@@ -174,10 +91,10 @@ func doCompile(j *job, res map[string]any) {
 		}
 		res["validate"] = vs
 	}
-	if wants(j, "spv") {
+	if j.Wants("spv") {
 		o := spirv.DefaultOptions()
-		o.Debug = optBool(j.Opts, "spv_debug", false)
-		if v := optInt(j.Opts, "spv_version", 0); v != 0 {
+		o.Debug = j.OptBool("spv_debug", false)
+		if v := j.OptInt("spv_version", 0); v != 0 {
 			o.Version = spirv.Version{Major: uint8(v >> 8), Minor: uint8(v & 0xff)}
 		}
 		b, err := naga.GenerateSPIRV(mod, o)
@@ -187,7 +104,7 @@ func doCompile(j *job, res map[string]any) {
 			res["spv"] = hex.EncodeToString(b)
 		}
 	}
-	if wants(j, "hlsl") {
+	if j.Wants("hlsl") {
 		o := hlsl.DefaultOptions()
 		s, info, err := hlsl.Compile(mod, o)
 		if err != nil {
@@ -197,7 +114,7 @@ func doCompile(j *job, res map[string]any) {
 			res["hlsl_info"] = Dump(info)
 		}
 	}
-	if wants(j, "msl") {
+	if j.Wants("msl") {
 		o := msl.DefaultOptions()
 		s, info, err := msl.Compile(mod, o)
 		if err != nil {
@@ -207,7 +124,7 @@ func doCompile(j *job, res map[string]any) {
 			res["msl_info"] = Dump(info)
 		}
 	}
-	if wants(j, "glsl") {
+	if j.Wants("glsl") {
 		outs := map[string]any{}
 		for _, ep := range mod.EntryPoints {
 			o := glsl.DefaultOptions()
@@ -221,7 +138,7 @@ func doCompile(j *job, res map[string]any) {
 		}
 		res["glsl"] = outs
 	}
-	if wants(j, "ir_after") {
+	if j.Wants("ir_after") {
 		res["ir_after"] = Dump(mod)
 	}
 	_ = ir.Module{}
